@@ -997,3 +997,40 @@ def purity_rules(prop):
         (prop + ".NOSTATE", 5, shared_reach("c15", "rule_globalstate", prop + ".NOSTATE", files)),
         (prop + ".ARGSAFE", 5, shared_reach("c15", "rule_nomut", prop + ".ARGSAFE", files)),
     ]
+
+
+BUNDLE_PARTS = ("rule_kwview", "rule_bundlekw", "rule_kwlive", "rule_keyparam", "rule_kwforward", "rule_filterimpl", "rule_decorated", "rule_roleargs", "rule_unpackorder", "rule_preproc", "rule_preproc_chord", "rule_paramlive", "rule_beattrim")
+
+
+def bundle_rules(prop):
+    """A property is also stated for evaluate(): the routing rules of C03 (which callee sees which keyword, which
+    argument is bound to which parameter, which returned component is stored under which key, which pre-processing feeds
+    which metric) are re-issued for the functions of the property's own modules; the keyword filter itself
+    (util.filter_kwargs and the decorator it looks through) belongs to every bundle."""
+    import json
+    import os
+
+    here = os.path.dirname(os.path.dirname(os.path.dirname(os.path.abspath(__file__))))
+    files = None
+    with open(os.path.join(here, "properties.jsonl")) as fh:
+        for line in fh:
+            d = json.loads(line)
+            if d["id"] == prop:
+                files = tuple(sorted(x.split("/")[-1] for x in d["anchors"]["files"]))
+    if not files:
+        return []
+    mods = {f[:-3] for f in files}
+
+    def rule(ctx):
+        import importlib
+
+        c03 = importlib.import_module("sa.rules.c03")
+        for part in BUNDLE_PARTS:
+            for o in getattr(c03, part)(ctx):
+                m = o.construct.split(":")[0].split(".")[0]
+                if m in mods or part in ("rule_filterimpl", "rule_decorated"):
+                    o.rule = prop + ".BUNDLE"
+                    yield o
+
+    rule.__doc__ = "shared with C03 (routing rules), restricted to %s" % ", ".join(files)
+    return [(prop + ".BUNDLE", 5, rule)]
